@@ -118,7 +118,7 @@ Definition mon (ml : list mact) (e o : list N) : list mact * list (nat * nat) :=
     | [3; i] => upd ml (N.to_nat i) (fun m =>
                   if mfirst m then m
                   else {| mk := mk m; mrel := mrel m; mcanc := mcanc m; mreg := mreg m; mfirst := true; mgranted := mgranted m;
-                          mblk := if N.eqb (mk m) 0 then regs_before else [] |})
+                          mblk := if N.eqb (mk m) 0 || N.eqb (mk m) 2 then regs_before else [] |})
     | [4; i] => upd ml (N.to_nat i) (fun m => {| mk := mk m; mrel := mrel m; mcanc := true; mreg := mreg m; mfirst := mfirst m; mgranted := mgranted m; mblk := mblk m |})
     | [5; i] => upd ml (N.to_nat i) (fun m => {| mk := mk m; mrel := true; mcanc := mcanc m; mreg := mreg m; mfirst := mfirst m; mgranted := mgranted m; mblk := mblk m |}) ++ [mnew 4]
     | [8] => ml ++ [mnew 4]
@@ -142,7 +142,7 @@ Definition mon (ml : list mact) (e o : list N) : list mact * list (nat * nat) :=
   let canc_blocked := existsb (fun p : mact * N => let (m, c) := p in mcanc m && N.eqb c 2) pairs3 in
   (* a read Lock newly observed granted while one of its blockers is still registered *)
   let pref_bad := existsb (fun p : mact * N => let (m, c) := p in
-                     N.eqb (mk m) 0 && N.eqb c 3 && negb (mgranted m) && negb (match mblk m with [] => true | _ => false end)) pairs3 in
+                     (N.eqb (mk m) 0 || N.eqb (mk m) 2) && N.eqb c 3 && negb (mgranted m) && negb (match mblk m with [] => true | _ => false end)) pairs3 in
   let ml4 := map (fun p : mact * N => let (m, c) := p in
                   {| mk := mk m; mrel := mrel m; mcanc := mcanc m; mreg := mreg m; mfirst := mfirst m;
                      mgranted := mgranted m || N.eqb c 3; mblk := mblk m |}) pairs3 in
